@@ -3,7 +3,7 @@
    every check).  A changed disjunct of should_encode, a changed short-cut arm, a changed in-place
    comparison, a changed / dropped / reordered statement of update_head, or `write` in place of
    `write_all` changes the generated table and these lemmas no longer prove. *)
-From AV Require Import Lib.Base Gen.CodingTables Web.Negotiate Web.ContentCoding.
+From AV Require Import Lib.Base Gen.CodingTables Web.Negotiate Web.ContentCoding Web.ContentCodingSelect.
 Open Scope N_scope.
 
 (* ---- should_encode *)
@@ -109,7 +109,72 @@ Section Machines.
     else dec_poll D dec_feed dec_eof max_dec fuel
            {| d_in := rest; d_decoder := None; d_fut := Some (dec_feed d c); d_eof := false |} o.
   Proof. intros. reflexivity. Qed.
+
+  (* Encoder::poll_next, the wrapped body answers None: which of the three returns of that arm is
+     taken, whether eof is set before it and what is returned are the generated rows *)
+  Definition end_arm_of (enc : option E) : end_arm :=
+    match enc with
+    | None => EndNoEncoder
+    | Some e => if nonempty (enc_finish e) then EndFinishChunk else EndFinishEmpty
+    end.
+  Definition end_arm_row (a : end_arm) : option (bool * end_ret) :=
+    match find (fun r : end_arm * bool * end_ret =>
+                  match fst (fst r), a with
+                  | EndFinishEmpty, EndFinishEmpty | EndFinishChunk, EndFinishChunk | EndNoEncoder, EndNoEncoder => true
+                  | _, _ => false
+                  end) ENC_BODY_END_ARMS with
+    | Some r => Some (snd (fst r), snd r)
+    | None => None
+    end.
+  Lemma enc_body_end_tie : forall fuel enc o,
+    let s := {| e_body := []; e_encoder := enc; e_fut := None; e_eof := false |} in
+    let '(r, s', _) := enc_poll E enc_write enc_take enc_finish max_enc (S fuel) s (true :: o) in
+    exists sets_eof ret, end_arm_row (end_arm_of enc) = Some (sets_eof, ret) /\
+      e_eof E s' = sets_eof /\
+      match ret with
+      | RetEnd => r = Ready None
+      | RetChunk => exists e, enc = Some e /\ r = Ready (Some (enc_finish e))
+      end.
+  Proof.
+    intros fuel enc o s. subst s. cbn [enc_poll e_eof e_fut e_body e_encoder ask negb].
+    destruct enc as [e|]; cbn [end_arm_of].
+    - cbv zeta. destruct (nonempty (enc_finish e)).
+      + exists true, RetChunk. repeat split. exists e. split; reflexivity.
+      + exists false, RetEnd. repeat split.
+    - exists false, RetEnd. repeat split.
+  Qed.
 End Machines.
+
+(* ---- impl FromStr for ContentEncoding = trim (when the source trims) + the generated chain;
+   Decoder::from_headers falls back to the generated variant; Decoder::new builds a decoder for
+   exactly the generated variants, each with the decoder of its own name *)
+Definition variant_coding (v : ce_variant) : coding :=
+  match v with CEIdentity => Identity | CEBrotli => Brotli | CEDeflate => Deflate | CEGzip => Gzip | CEZstd => Zstd end.
+Definition cmp_fn (c : str_cmp) (a lit : bytes) : bool :=
+  match c with CmpIgnoreAsciiCase => eq_ignore_ascii_case a lit | CmpExact => bytes_eqb a lit end.
+Fixpoint from_str_chain (arms : list (str_cmp * list N * ce_variant)) (enc : bytes) : option coding :=
+  match arms with
+  | [] => None
+  | (c, lit, v) :: r => if cmp_fn c enc lit then Some (variant_coding v) else from_str_chain r enc
+  end.
+
+Lemma from_str_tie : forall enc,
+  content_encoding_from_str enc = from_str_chain CE_FROM_STR_ARMS (if CE_FROM_STR_TRIMS then trim enc else enc).
+Proof. intro enc. reflexivity. Qed.
+
+Lemma from_headers_fallback_tie : forall v more,
+  decoder_from_headers [] = variant_coding DEC_FROM_HEADERS_FALLBACK /\
+  (to_str_ok v = false \/ content_encoding_from_str v = None ->
+   decoder_from_headers (v :: more) = variant_coding DEC_FROM_HEADERS_FALLBACK).
+Proof.
+  intros v more. split; [reflexivity|]. unfold decoder_from_headers. intros [H|H]; rewrite H; [reflexivity|].
+  destruct (to_str_ok v); reflexivity.
+Qed.
+
+Lemma decoder_new_tie : forall c,
+  decoder_new_has c = existsb (fun a : ce_variant * ce_variant => coding_eqb (variant_coding (fst a)) c) DECODER_NEW_ARMS /\
+  forallb (fun a : ce_variant * ce_variant => coding_eqb (variant_coding (fst a)) (variant_coding (snd a))) DECODER_NEW_ARMS = true.
+Proof. intro c. split; [destruct c; reflexivity|reflexivity]. Qed.
 
 (* ---- ContentEncoder::write hands the WHOLE chunk to the codec in every arm (`write_all`): this is
    what the model's total `enc_write : E -> bytes -> E` and the premise codec_law (everything
